@@ -1908,7 +1908,7 @@ func genC03Torn(w *bufio.Writer, r *rand.Rand, id string, big bool) {
 
 // a transaction (or batch) of a few entries in which a LATER-sorted key carries a value that makes
 // its log record exactly one physical record long, or one byte more / less (the place where the
-// single-record and the fragmented form meet); then unrelated writes (the log buffer is written
+// single-record and the fragmented form meet), or whose fragments fill whole records; then unrelated writes (the log buffer is written
 // out), a reopen, and the reads: whatever the commit reported, all of it or none of it is there
 func genC03Boundary(w *bufio.Writer, r *rand.Rand, id string) {
 	fmt.Fprintf(w, "case %s mode=seq memsize=100000\n", id)
@@ -1927,7 +1927,13 @@ func genC03Boundary(w *bufio.Writer, r *rand.Rand, id string) {
 	for j, p := range perm {
 		k := []byte(keys[p])
 		if j == at {
-			fmt.Fprintf(w, "p %s @%d:%d\n", mkTok(k), wal.MaxRecordSize-13-4-len(k)+[]int{0, 0, 0, 1, -1}[r.Intn(5)], r.Intn(1<<20))
+			vl := wal.MaxRecordSize - 13 - 4 - len(k) + []int{0, 0, 0, 1, -1}[r.Intn(5)]
+			if r.Intn(3) == 0 {
+				// ... or the bytes behind the first fragment (value length + value) fill whole
+				// records exactly: the place where the last MIDDLE record and the LAST record meet
+				vl = (1+r.Intn(2))*wal.MaxRecordSize - 4 + []int{0, 0, 0, 1, -1}[r.Intn(5)]
+			}
+			fmt.Fprintf(w, "p %s @%d:%d\n", mkTok(k), vl, r.Intn(1<<20))
 		} else if r.Intn(5) == 0 {
 			fmt.Fprintf(w, "d %s\n", mkTok(k))
 		} else {
